@@ -8,7 +8,8 @@ OVV = [("zzverif", "zzverif"), ("ot", "ot"), ("vole", "vole")]
 OVS = OVV + [("vole_sum", "vole")]
 def B(name, desc): return Harness(name, "./bmr", OVB, expect_reach=["end"], desc=desc)
 def UF(name, desc): return Harness(name, "./vole", OVS, flags=["-bigw", "264", "-bigarith", "uf", "-unwind", "2000000"], expect_reach=["end"], desc=desc)
-def BV(name, desc): return Harness(name, "./vole", OVS, flags=["-bigw", "264", "-unwind", "2000000"], expect_reach=["end"], desc=desc)
+# the small-prime kernel runs the REAL bytes32 (values below 2^8 have at most two byte lengths: no summary needed)
+def BV(name, desc): return Harness(name, "./vole", OVV, flags=["-bigw", "264", "-unwind", "2000000"], expect_reach=["end"], desc=desc)
 fx = "BMR: real FxSend/FxReceive over an ideal 1-of-2 OT, sender's random label arbitrary: "
 uf = ("VOLE plumbing, every modulus p < 2^256 and all x, y < 2^256: real Sender.Mul || Receiver.Mul (goroutines over a real p2p.Pipe, real IKNP extension underneath, real "
       "prgExpandLabel over AES-CTR with AES uninterpreted); big.Int.Mul/Mod uninterpreted (Mod with its contract); u_i = (r_i + x_i*(y_i mod p) mod p) mod p with the SENDER's r_i, ")
@@ -18,7 +19,7 @@ hs = [B("verifC20Fx", fx + "r xor xb = a*b for a, b in {0,1}"),
       B("verifC20Fxk", "BMR: real FxkSend/FxkReceive: r xor xb = b*s for b in {0,1} and EVERY label value s (byte-wise and via Label.Equal)"),
       B("verifC20FxkSeq", "BMR: two string multiplications then one bit multiplication over the same OT instance"),
       B("verifC20LabelOT", "BMR: Label.FromOT(Label.ToOT(s)) = s for every label"),
-      Harness("verifC20Bytes32", "./vole", OVV, flags=["-bigw", "264"], expect_reach=["end"],
+      Harness("verifC20Bytes32", "./vole", OVV + [("vole_b32", "vole")], flags=["-bigw", "264"], expect_reach=["end"],
               desc="the real vole.bytes32 is the fixed-width big-endian encoding of every value below 2^256 (all 33 byte lengths); justifies the summary used by the other VOLE harnesses"),
       UF("verifC20VoleUF1", uf + "m=1"),
       UF("verifC20VoleUF3x2", uf + "m=3, two consecutive Mul calls on the same instances"),
@@ -35,7 +36,7 @@ sys.exit(run_property(
     "follows by ring axioms. (2) arithmetic kernel: the same code with exact bit-vector arithmetic for concrete small primes, all field elements.",
     ["ideal 1-of-2 OT under the BMR gadgets and ideal base OT under the IKNP extension (see C06)",
      "AES is an uninterpreted function (prgExpandLabel's pad is an arbitrary function of the label); IKNP PRG streams are uninterpreted",
-     "multi-element VOLE harnesses use a summary of vole.bytes32 (big.Int.FillBytes) that verifC20Bytes32 proves equal to the real function for every value < 2^256",
+     "the uninterpreted-arithmetic VOLE harnesses (256-bit operands) use a summary of vole.bytes32 (big.Int.FillBytes) that verifC20Bytes32 proves equal to the real function for every value < 2^256; the small-prime kernel harnesses run the real bytes32",
      "VOLE obligation (1) treats big.Int.Mul/Mod as uninterpreted functions with Mod's contract; the step from the proved term equality to the congruence is the ring axioms (not mechanised)",
      "crypto/rand returns arbitrary bytes; goroutines under a cooperative scheduler switching at blocking operations"],
     ["the modular identity with exact arithmetic for moduli above 13 (quick) / 251 (thorough): 256-bit symbolic multiplication/remainder does not finish in z3",
